@@ -704,13 +704,90 @@ def _short(ev):
     return {k: v for k, v in ev.items() if k in ("e", "l", "o", "x", "t", "before", "st") and v is not None}
 
 
+def tcp_cases(ctx, cases=None):
+    """from_tcp overrides run()/stop(): its 'polling cycle' is one read of one open connection.  Real sockets on 127.0.0.1, real time
+    (small directed sample): after stop() at most the read already pending on each open connection is delivered - nothing of what the
+    clients send later - and a restart serves new connections without duplicating anything.  Slowness can only hide a violation here
+    (what must NOT arrive is awaited for a fixed 0.3 s; what MUST arrive is awaited for up to 20 s)."""
+    import socket
+    import time
+    from streamz import Source
+    if cases is None:
+        cases = [{"tcp": True, "conns": c, "after": a, "double_stop": d} for c, a, d in ((1, 3, False), (2, 2, True), (1, 2, True))]
+    for case in cases:
+        out = {}
+
+        async def main(case=case, out=out):
+            sk = socket.socket()
+            sk.bind(("127.0.0.1", 0))
+            port = sk.getsockname()[1]
+            sk.close()
+            src = Source.from_tcp(port, asynchronous=True)
+            got = src.sink_to_list()
+            src.start()
+            await asyncio.sleep(0.05)
+
+            async def wait_for(pred, t=20):
+                t0 = time.time()
+                while not pred() and time.time() - t0 < t:
+                    await asyncio.sleep(0.01)
+                return pred()
+            ws = []
+            for c in range(case["conns"]):
+                _, w = await asyncio.open_connection("127.0.0.1", port)
+                ws.append(w)
+                w.write(b"before-%d\n" % c)
+                await w.drain()
+            out["before_ok"] = await wait_for(lambda: len(got) == case["conns"])
+            src.stop()
+            if case["double_stop"]:
+                src.stop()
+            for k in range(case["after"]):
+                for c, w in enumerate(ws):
+                    w.write(b"after-%d-%d\n" % (c, k))
+                    await w.drain()
+                await asyncio.sleep(0.05)
+            await asyncio.sleep(0.3)
+            out["after_stop"] = [g.decode().strip() for g in got]
+            src.start()
+            await asyncio.sleep(0.05)
+            _, w2 = await asyncio.open_connection("127.0.0.1", port)
+            w2.write(b"restarted\n")
+            await w2.drain()
+            out["restart_ok"] = await wait_for(lambda: b"restarted\n" in got)
+            out["final"] = [g.decode().strip() for g in got]
+            src.stop()
+            for w in ws + [w2]:
+                w.close()
+            await asyncio.sleep(0.05)
+        try:
+            asyncio.run(main())
+        except OSError as e:          # no loopback / port taken in between: nothing observed, nothing claimed
+            ctx.count("tcp:skipped:" + type(e).__name__)
+            continue
+        ctx.case(case, nontrivial=True)
+        ctx.count("tcp:stop-with-open-connections")
+        late = [m for m in out.get("after_stop", []) if m.startswith("after-") and not m.endswith("-0")]
+        firsts = [m for m in out.get("after_stop", []) if m.startswith("after-")]
+        final = out.get("final", [])
+        if not out.get("before_ok"):
+            ctx.failure("tcp:not-delivered", "from_tcp: the records sent while the source was running did not arrive within 20 s: %r" % (final,), case)
+        elif late or len(firsts) > case["conns"]:
+            ctx.failure("emit-after-stop:from_tcp", "from_tcp with %d open connection(s): after stop() the clients sent %d more records each; delivered after the stop: %r "
+                        "(at most the one read pending on each connection may finish)" % (case["conns"], case["after"], firsts), case)
+        elif not out.get("restart_ok") or len(set(final)) != len(final):
+            ctx.failure("tcp:restart", "from_tcp after stop(); start(): a new connection's record %s; all deliveries %r"
+                        % ("arrived" if out.get("restart_ok") else "did not arrive within 20 s", final), case)
+
+
 def run(ctx):
     ctx.audit()
+    tcp_cases(ctx)
     ctx.assumptions += [
         "one event loop, one thread: start()/stop() are called on the loop thread (cross-thread races with a source on the background loop are out of scope)",
         "suspension points inside a polling cycle are not distinguished by the model (a cycle is atomic between begin and end); the harness places calls at each of them",
         "from_iterable's iterable is a finite list of distinct naturals, re-iterable (list-like) or a one-shot iterator (shared cursor)",
-        "sources overriding start()/stop() themselves (from_kafka*, from_tcp, from_http_server, from_websocket) are not covered",
+        "sources overriding start()/stop() themselves: from_tcp by a small real-socket sample (oracle only); from_kafka* under C09; from_http_server, from_websocket not covered",
     ]
     n = 200 if not ctx.thorough() else 5000
     cases = [dict(c) for c in CORPUS]
@@ -749,6 +826,10 @@ def replay(ctx, data):
     scratch = tempfile.mkdtemp(prefix="verif-c18-")
     try:
         case = data["case"]
+        if case.get("tcp"):
+            tcp_cases(ctx, [case])
+            ctx.coverage["rule"] = "replay of one recorded case"
+            return
         log = observe(case, scratch)
         acts = to_actions(case, log)
         lf = model_lines(case, acts, True)
